@@ -47,7 +47,7 @@ func val(id int) []byte { return []byte(fmt.Sprintf("v%d", id)) }
 
 func drawC05(rt *rapid.T) interface{} {
 	sc := &C05Scenario{}
-	sc.Mode = rapid.SampledFrom([]string{"seq", "seq", "conc", "conc", "redis"}).Draw(rt, "mode")
+	sc.Mode = rapid.SampledFrom([]string{"seq", "seq", "conc", "conc", "redis", "rconc"}).Draw(rt, "mode")
 	sc.NKeys = rapid.IntRange(1, 4).Draw(rt, "nkeys")
 	sc.BaseSec = 1700000005
 	switch sc.Mode {
@@ -58,7 +58,7 @@ func drawC05(rt *rapid.T) interface{} {
 	case "conc":
 		sc.Size = 100
 		sc.DefTTL = rapid.SampledFrom([]int64{-1, 0, 3, 13}).Draw(rt, "defttl")
-	case "redis":
+	case "redis", "rconc":
 		sc.Size = 100
 		sc.DefTTL = rapid.SampledFrom([]int64{3, 13, 23}).Draw(rt, "defttl")
 	}
@@ -72,7 +72,7 @@ func drawC05(rt *rapid.T) interface{} {
 	}
 	nt := 1
 	maxOps := 40
-	if sc.Mode == "conc" {
+	if sc.Mode == "conc" || sc.Mode == "rconc" {
 		nt = rapid.IntRange(2, 4).Draw(rt, "ntasks")
 		maxOps = 6
 	}
@@ -102,6 +102,17 @@ func drawC05(rt *rapid.T) interface{} {
 					op.Adv = rapid.SampledFrom([]int64{0, 1, 1, 2, 3, 5, 10}).Draw(rt, "adv")
 				} else {
 					op.Adv = rapid.SampledFrom([]int64{0, 10, 10, 20, 100}).Draw(rt, "adv")
+				}
+			}
+			if sc.Mode == "rconc" {
+				// concurrent callers of the redis-backed cache: single-command operations only (update-ttl, keep-ttl and
+				// Clear are multi-command or blind there and are compared sequentially in the redis class)
+				op.Keep = false
+				if op.Op == "clear" {
+					op.Op = "remove"
+				}
+				if op.Mode == "upd" {
+					op.Mode = "rag"
 				}
 			}
 			if sc.Mode == "redis" && op.Op != "clear" && op.Op != "adv" && rapid.IntRange(0, 9).Draw(rt, "inj") == 0 {
@@ -538,6 +549,11 @@ func runC05Conc(t *testing.T, sc *C05Scenario, keepLog bool) *hx.Outcome {
 	cfg.BaseUnixMs = sc.BaseSec * 1000
 	main := func(s *simrt.Sim) {
 		c := cache.NewTTLMemCache(sc.Size, sc.DefTTL)
+		if sc.Mode == "rconc" {
+			cli, _ := newFakeRedis(func() int64 { return s.WallNow().UnixMilli() })
+			defer cli.Close()
+			c = cache.NewTTLRdsCache(cli, "p:", sc.DefTTL)
+		}
 		var ts []*simrt.Task
 		for ti, ops := range sc.Tasks {
 			ti, ops := ti, ops
@@ -595,6 +611,9 @@ func runC05Conc(t *testing.T, sc *C05Scenario, keepLog bool) *hx.Outcome {
 		switch hx.CheckLin(c05Model(sc), h, 20*time.Second) {
 		case "illegal":
 			o.Class = "ttl-history-not-linearizable"
+			if sc.Mode == "rconc" {
+				o.Class = "redis-ttl-history-not-linearizable"
+			}
 			o.Msg = "concurrent callers: the recorded results (hits, values, already-exists, one-shot reads) are not those of the TTL map in any order consistent with real time"
 		case "unknown":
 			o.Counts["porcupine-unknown"]++
